@@ -335,10 +335,10 @@ def judge_run(case, loc, k):
     pos = 0
     for rt in ref_texts:
         j = dsql.find(rt, pos)
-        if j < 0 and rt.rstrip() and dsql[pos:].endswith(rt.rstrip()):
+        if j < 0 and rt.rstrip() and dsql.rstrip()[pos:].endswith(rt.rstrip()):
             # Pony's SQL builder trims trailing line breaks of the WHOLE statement; a fragment that ends the statement
             # loses them too -- not text of the fragment that reaches or misses the database in any observable way
-            j = len(dsql) - len(rt.rstrip())
+            j = len(dsql.rstrip()) - len(rt.rstrip())
             rt = rt.rstrip()
         if j < 0:
             return 'text', '%s: the SQL sent to the driver %r does not contain the fragment text %r' % (label, dsql, rt)
